@@ -3117,6 +3117,21 @@ type acknowledgementResult struct {
 	processed               bool
 	cumTSNAckPointAdvanced  bool
 	deliveredFound          bool
+	callbacks               []func()
+}
+
+// invokeUnlocked runs the streams' low-threshold callbacks with the lock released.
+// The caller should hold the lock.
+func (a *Association) invokeUnlocked(callbacks []func()) {
+	if len(callbacks) == 0 {
+		return
+	}
+
+	a.lock.Unlock()
+	for _, f := range callbacks {
+		f()
+	}
+	a.lock.Lock()
 }
 
 // processAcknowledgement applies the fields shared by SACK and SHUTDOWN.
@@ -3177,21 +3192,26 @@ func (a *Association) processAcknowledgement(
 		a.setRWNDFromAdvertised(selectiveAckChunk.advertisedReceiverWindowCredit)
 	}
 
+	// Every stream's figure is brought up to date before any callback runs, and the
+	// callbacks run only when this acknowledgement has been applied in full: the lock
+	// is released for them, and what they (or other goroutines meanwhile) read and
+	// write must not find half of it applied.
+	var callbacks []func()
 	for si, nBytesAcked := range bytesAckedPerStream {
 		if s, ok := a.streams[si]; ok {
-			a.lock.Unlock()
-			s.onBufferReleased(nBytesAcked)
-			a.lock.Lock()
+			if f := s.releaseBufferedAmount(nBytesAcked); f != nil {
+				callbacks = append(callbacks, f)
+			}
 		}
 	}
-	detached := append([]detachedStreamCredit(nil), a.ackedBytesDetached...)
-	for _, d := range detached {
-		a.lock.Unlock()
-		d.stream.onBufferReleased(d.nBytes)
-		a.lock.Lock()
+	for _, d := range a.ackedBytesDetached {
+		if f := d.stream.releaseBufferedAmount(d.nBytes); f != nil {
+			callbacks = append(callbacks, f)
+		}
 	}
 
 	return acknowledgementResult{
+		callbacks:               callbacks,
 		htna:                    htna,
 		newestDeliveredSendTime: newestDeliveredSendTime,
 		newestDeliveredOrigTSN:  newestDeliveredOrigTSN,
@@ -3276,6 +3296,7 @@ func (a *Association) handleSack(selectiveAckChunk *chunkSelectiveAck) error {
 	if err != nil || !result.processed {
 		return err
 	}
+	defer a.invokeUnlocked(result.callbacks)
 
 	// New rwnd value
 	// RFC 4960 sec 6.2.1.  Processing a Received SACK
@@ -3372,6 +3393,7 @@ func (a *Association) processShutdownAcknowledgement(c *chunkShutdown) error {
 	if err != nil {
 		return err
 	}
+	defer a.invokeUnlocked(result.callbacks)
 	if result.processed {
 		if err = a.finishAcknowledgement(ack, result); err != nil {
 			return err
